@@ -32,6 +32,24 @@ ASSUMPTIONS = ["a static bit length n of a parameter is checked as: the paramete
                "SYSTEM parameters with a predefined SYSPARAM are generated with a DOP that can hold the implicit value (they are 'not required')"]
 
 
+# --- tie of kind (1) (task W7): Gen/CodecStaticLen.lean is regenerated from composite_codec_get_static_bit_length of the current
+# source by the Python->Lean translator and proved equal to the hand-written paramsStaticLen (Proofs/CodecStaticLenGenEq.lean)
+LEAN_TARGETS = LEAN_TARGETS + ["OdxVerif.Props.C08Gen"]
+THEOREMS = THEOREMS + ["OdxVerif.Codec." + t for t in ["gen_staticLen_eq", "gen_staticLen_struct", "C08_gen_static_length"]]
+TRUSTED = TRUSTED + ["translator harness/extract/py2lean.py + primitives lean/OdxVerif/Model/PyRt.lean for composite_codec_get_static_bit_length "
+                     "(Param.get_static_bit_length / byte_position / bit_position are an abstract record interface of the rendering)"]
+
+
+def regen_static_len(ctx):
+    """Unsupported (source left the translator's subset) = broken obligation"""
+    import common
+    from extract import py2lean
+    py2lean.regenerate_staticlen(common.REPO, common.VERIF)
+
+
+GENERATORS = list(globals().get("GENERATORS", [])) + [regen_static_len]
+
+
 def corpus():
     u8, val, C = D.u8, D.value, D.Composite
     out = []
